@@ -27,12 +27,16 @@ fn run_scan(ctx: &Ctx, laws: bool) -> i32 {
             let mut res = CaseResult::default();
             res.nontrivial = true;
             res.outcomes.push("plane:F-stacks".into());
+            let stack = stack_f(ctx.seed, *p);
             if laws {
-                res.nontrivial = false;
-                res.outcomes = vec!["skipped:F-stacks-not-used-by-laws".into()];
+                // the laws on stacks: alpha equals the all-Normal stack's alpha; a zero-opacity copy of a layer is a no-op
+                res.feature = crate::rng::mix(crate::rng::hash_str(&stack.label)) | 1;
+                let npx = stack.w as u64 * stack.h as u64;
+                res.leaves = npx * stack.layers.len() as u64;
+                res.count("stack_renderings_compared", stack.layers.len() as u64 + 1);
+                res.violations = check_stack_laws(&stack);
                 return res;
             }
-            let stack = stack_f(ctx.seed, *p);
             res.feature = crate::rng::mix(crate::rng::hash_str(&stack.label)) | 1;
             let npx = stack.w as u64 * stack.h as u64;
             res.leaves = npx;
